@@ -1,7 +1,7 @@
 """C08 - interactive results converge to a fresh filter of the current query (spec/FzfPipeline.tla, Trace_Pipeline.tla)."""
 import json, os
 from concurrent.futures import ThreadPoolExecutor
-import pipeline
+import pipeline, matcher_sched
 from vlib import Infra, write_ndjson
 
 
@@ -28,6 +28,9 @@ def validate(ctx, events, table, label):
 def run(ctx, prop="C08"):
     ctx.mc("FzfPipeline", "MC_Pipeline_quick.cfg" if ctx.quick else "MC_Pipeline.cfg", timeout=1700, workers=8)
     race = prop == "C13"
+    if not ctx.replay:
+        # E binding: TLC-enumerated matcher schedules with gate-forced cancellation points
+        matcher_sched.run_part(ctx, sample=ctx.pick(300, None) if prop == "C08" else ctx.pick(500, None))
     fzf = ctx.build_fzf(race=race)
     fzf_oracle = ctx.build_fzf() if race else fzf
     rng = ctx.rng
